@@ -26,7 +26,7 @@ def run(ctx: fw.Ctx):
     ]
     ctx.assumptions = ["values are compared as whitespace-normalised source text",
                        "edits through identifier references are decided by C11, not here"]
-    stride, nrand, maxops = (5, 800, 8) if ctx.quick else (1, 12000, 30)
+    stride, nrand, maxops = (2, 800, 8) if ctx.quick else (1, 12000, 30)
     hists = ep.build_stream(ctx, stride, nrand, maxops, enum_offset=2)
     ec.correspond(ctx, hists)
     observe(ctx, hists)
